@@ -260,6 +260,10 @@ class Exec:
         self._spec_depth = getattr(self, "_spec_depth", 0) + 1
         try:
             v = self.eval(node, cenv, _SpecFrame(self))
+        except PathRaise as pr:
+            # the clause mentions an attribute / key / index that does not exist in the current code (e.g. after a rename):
+            # the contract cannot be evaluated -> UNDECIDED, never a violation
+            raise Unsupported(f"contract clause cannot be evaluated on the current code ({pr.exc}): {clause.strip()[:120]}")
         finally:
             self._spec_depth -= 1
         if isinstance(v, Small):
